@@ -58,8 +58,9 @@ func genCase(t *rapid.T, env *ev.Env) Case {
 		prog.OpHead: 1, prog.OpGet: 1, prog.OpList: 1,
 	}
 	// half of the programs contain restarts of the replication layer
-	if rapid.Bool().Draw(t, "restarts") {
-		w[prog.OpReopen] = 3
+	restarts := rapid.Bool().Draw(t, "restarts")
+	if restarts {
+		w[prog.OpReopen] = 2
 	}
 	cfg := prog.GenConfig{
 		Buckets: 2, Keys: 3, MinOps: 5, MaxOps: 30, Weights: w,
@@ -72,16 +73,20 @@ func genCase(t *rapid.T, env *ev.Env) Case {
 			{Kind: prog.OpPut, B: 1, K: 1, Body: &gen.BodySpec{Kind: "text", Len: 2000, Seed: 32}, Class: sp("GLACIER")},
 		},
 	}
-	c.Ops = cfg.Gen(t)
-	for i := range c.Ops {
-		op := &c.Ops[i]
-		if i < len(cfg.Prelude) {
-			continue
+	ops := cfg.Gen(t)
+	for i := range ops {
+		op := ops[i]
+		if i >= len(cfg.Prelude) {
+			// prefer sources that exist
+			if (op.Kind == prog.OpCopy || op.Kind == prog.OpMpuPartCopy) && rapid.IntRange(0, 2).Draw(t, "preludeSrc") > 0 {
+				op.SK = op.SB % 2
+			}
+			// restarts in the middle of a multipart upload
+			if restarts && (op.Kind == prog.OpMpuPart || op.Kind == prog.OpMpuPartCopy || op.Kind == prog.OpMpuComplete) && rapid.IntRange(0, 5).Draw(t, "restartInUpload") == 0 {
+				c.Ops = append(c.Ops, prog.Op{Kind: prog.OpReopen})
+			}
 		}
-		// prefer sources that exist
-		if (op.Kind == prog.OpCopy || op.Kind == prog.OpMpuPartCopy) && rapid.IntRange(0, 2).Draw(t, "preludeSrc") > 0 {
-			op.SK = op.SB % 2
-		}
+		c.Ops = append(c.Ops, op)
 	}
 	return c
 }
@@ -197,6 +202,9 @@ func unjudged(p, s *dump.Dump, o *ev.Outcome) {
 		}
 		if js(pb.Uploads) != js(sb.Uploads) {
 			o.Count("unjudged_diff:pending_uploads", 1)
+			if os.Getenv("C23_DEBUG") != "" {
+				fmt.Fprintf(os.Stderr, "PENDING-UPLOADS-DIFF primary=%s secondary=%s\n", js(pb.Uploads), js(sb.Uploads))
+			}
 		}
 	}
 }
@@ -328,6 +336,9 @@ func runCase(env *ev.Env, c Case) (o ev.Outcome) {
 			return
 		}
 		g := sr.Got[0]
+		if os.Getenv("C23_DEBUG") != "" {
+			fmt.Fprintf(os.Stderr, "STEP %d %s -> %q %s\n", i, js(op), g.Err, g.ErrText)
+		}
 		if g.Err == "" {
 			o.Count("ok:"+op.Kind, 1)
 		} else {
